@@ -353,9 +353,9 @@ var c14ItemList = c14Items()
 func (p *c14) NumCases(tier string) int {
 	n := len(c14ItemList)*len(c14OpList)*2 + len(c14ItemList)*2
 	if tier == "thorough" {
-		return n + 600
+		return n + 2000
 	}
-	return n + 40
+	return n + 200
 }
 
 func readBack(cl adapt.Client) (val.Item, string) {
